@@ -57,16 +57,37 @@ fn simple_type(out: &mut String, prefix: &str, name: &str, kind: u64, doc: bool)
 /// Generates one file set. All choices come from `ch`; all-zero choices give the smallest set
 /// (one file, one operation, one part, `parts=` present, no header).
 pub fn gen_wsdl_set(ch: &mut Chooser, tag: u64) -> (InputSet, GenMeta) {
+    gen_wsdl_set_opt(ch, tag, false)
+}
+
+/// Namespace URL for word `w`: in the tame profile always the same; in the wild profile one of several URLs that
+/// all abbreviate to the same three letters, so that the same URL gets different abbreviations in different sets.
+fn ns_url(ch: &mut Chooser, w: &str, wild: bool) -> String {
+    if !wild {
+        return format!("http://example.com/gen/{w}");
+    }
+    match ch.choose("gen_ns_variant", 3) {
+        0 => format!("http://example.com/gen/{w}"),
+        1 => format!("http://example.com/v2/{w}"),
+        _ => format!("http://example.org/svc/other-{w}"),
+    }
+}
+
+/// `wild` (DET only, never compiled): abbreviation collisions between namespaces, imports without
+/// schemaLocation, and extra siblings that declare an already used targetNamespace.
+pub fn gen_wsdl_set_opt(ch: &mut Chooser, tag: u64, wild: bool) -> (InputSet, GenMeta) {
     let n_files = 1 + ch.choose("gen_files", 4) as usize; // wsdl + up to 3 xsd
     let n_ops = 1 + ch.choose("gen_ops", 8) as usize;
-    let tns = format!("http://example.com/gen/{}", NS_WORDS[0]);
+    // in the wild profile the WSDL's own namespace may collide (in abbreviation) with an imported one
+    let tns_word = if wild && ch.choose("gen_tns_collides", 3) == 2 && n_files > 1 { NS_WORDS[1] } else { NS_WORDS[0] };
+    let tns = if wild && tns_word == NS_WORDS[1] { format!("http://example.com/main/{tns_word}") } else { ns_url(ch, tns_word, wild) };
     let mut files: Vec<(String, Vec<u8>)> = Vec::new();
 
     // imported schemas t1..t3: a chain or a fan (DAG), each with one complex and one restricted simple type
     let fan = ch.choose("gen_dag_shape", 2) == 1;
     let mut xsd_ns = Vec::new();
     for i in 1..n_files {
-        xsd_ns.push(format!("http://example.com/gen/{}", NS_WORDS[i]));
+        xsd_ns.push(ns_url(ch, NS_WORDS[i], wild));
     }
     for i in 1..n_files {
         let ns = &xsd_ns[i - 1];
@@ -121,6 +142,18 @@ pub fn gen_wsdl_set(ch: &mut Chooser, tag: u64) -> (InputSet, GenMeta) {
     for i in 1..n_files {
         if fan || i == 1 {
             let _ = writeln!(w, "      <xs:import namespace=\"{}\" schemaLocation=\"t{i}.xsd\"/>", xsd_ns[i - 1]);
+        }
+    }
+    if wild && n_files > 1 && ch.choose("gen_import_without_location", 2) == 1 {
+        // an import that names no file, and two siblings that both declare that namespace
+        let k = 1 + ch.choose("gen_shadowed", (n_files - 1) as u64) as usize;
+        let _ = writeln!(w, "      <xs:import namespace=\"{}\"/>", xsd_ns[k - 1]);
+        let p = &NS_WORDS[k][..1];
+        let mut cap = NS_WORDS[k].to_string();
+        cap[..1].make_ascii_uppercase();
+        for (fname, extra) in [("s1.xsd", "ShadowOne"), ("s2.xsd", "ShadowTwo")] {
+            let sx = format!("<?xml version=\"1.0\" encoding=\"UTF-8\"?>\n<xs:schema xmlns:xs=\"http://www.w3.org/2001/XMLSchema\" xmlns:{p}=\"{ns}\" elementFormDefault=\"qualified\" targetNamespace=\"{ns}\">\n  <xs:complexType name=\"{cap}{extra}\"><xs:sequence><xs:element name=\"shadow\" type=\"xs:string\"/></xs:sequence></xs:complexType>\n</xs:schema>\n", ns = xsd_ns[k - 1]);
+            files.push((fname.to_string(), sx.into_bytes()));
         }
     }
     simple_type(&mut w, "tns", "TokenCode", ch.choose("gen_facet", 6), ch.choose("gen_doc", 2) == 1);
